@@ -78,11 +78,15 @@ fn c03_bytes(s: &mut Src) -> Vec<u8> {
             let mut labels = vec![];
             let mut v = Vec::new();
             for _ in 0..s.below(6) {
-                let ni = s.below(4);
-                v.extend(style_name(s, ["Content-Length", "Expect", "Accept-Encoding", "X"][ni]).into_bytes());
+                let ni = s.below(8);
+                v.extend(style_name(s, ["Content-Length", "Expect", "Accept-Encoding", "X", "Transfer-Encoding", "Accept", "Content-Type", "Server"][ni]).into_bytes());
                 v.push(b':');
-                let vi = s.below(6);
-                v.extend(style_value(s, ["5", "100-continue", "*;q=0", "identity;q=0", "", "\u{a0}"][vi]).into_bytes());
+                let vi = s.below(12);
+                let mut val = ["5", "100-continue", "*;q=0", "identity;q=0", "", "\u{a0}", "gzip, br", "chunked", "a, b, ", "text/plain, */*", ",", "application/json"][vi].to_string();
+                if s.chance(60) {
+                    val = crate::gen::hazard_value(s, &val);
+                }
+                v.extend(style_value(s, &val).into_bytes());
                 v.extend_from_slice(b"\r\n");
                 labels.push(());
             }
